@@ -30,7 +30,7 @@ COMPONENTS = {"real": ["subsequence/localconcurrences.py (LocalConcurrences, LCM
                        "C: dtw_wps_max / negativize / positivize / best_path_affinity when a use_c instance can be constructed"],
               "stub": ["client sessions and their interleaving (seeded scheduler)", "reference model: affinity recurrence + consumed-cell set (sim/models/dtw_ref.py)"]}
 ASSUMPTIONS = ["bounds: mostly series length 2..10 (one history in 12: length 11..24, minlen up to 8, |buffer| up to 6, up to ~60 ops); values on a small grid so that equal stretches (real local concurrences) exist",
-               "reset() is taken to void generators created before it (they keep working on the dropped matrix)", "use_c instances (full and compact) are driven through the same histories; where the C matrix is known not to equal the recurrence (window set, penalty outside {0,1}: known findings) their history ops are skipped",
+               "reset() is taken to void generators created before it (they keep working on the dropped matrix)", "use_c instances (full and compact) are driven through the same histories; where the C matrix is known not to equal the recurrence (window set, penalty outside {0,1}: known findings) the magnitude-based oracles are switched off for C instances and the structural ones (path shape, end cell, minlen, no reuse since reset, restart as fresh) remain",
                "a restart (restart=True at a generator's first next, kbest_matches_store(keep=False) returning) empties the model's consumed set: the model never demands reuse, it only forbids reuse since the last reset",
                "wp_slice(positivize=True) is not part of the generated histories (on the masked-array variant it rewrites the shared matrix through a view, turning -inf into +inf; the property does not speak of it)"]
 TOL = 1e-9
@@ -167,8 +167,11 @@ def close(a, b):
     return abs(a - b) <= TOL * max(1.0, abs(a), abs(b))
 
 
-def check_path(path, end_rc, M, U, minlen, ctx, check_disjoint=True):
-    r1, c1 = len(M) - 1, len(M[0]) - 1
+def check_path(path, end_rc, M, U, minlen, ctx, check_disjoint=True, shape=None):
+    if M is None:
+        r1, c1 = shape
+    else:
+        r1, c1 = len(M) - 1, len(M[0]) - 1
     pts = [(int(a), int(b)) for a, b in path]
     if not pts:
         return {"class": "path-empty", "detail": "%s: empty path" % ctx}
@@ -180,7 +183,7 @@ def check_path(path, end_rc, M, U, minlen, ctx, check_disjoint=True):
     for (a, b) in pts:
         if not (0 <= a < r1 and 0 <= b < c1):
             return {"class": "path-outside", "detail": "%s: cell %r outside the matrix" % (ctx, (a, b))}
-        if not (M[a + 1][b + 1] > 0):
+        if M is not None and not (M[a + 1][b + 1] > 0):
             return {"class": "path-nonpositive-cell", "detail": "%s: cell %r has magnitude %r (excluded or zero)" % (ctx, (a, b), M[a + 1][b + 1])}
     if minlen is not None and len(pts) < minlen:
         return {"class": "path-too-short", "detail": "%s: %d cells < minlen %d" % (ctx, len(pts), minlen)}
@@ -293,11 +296,13 @@ def execute(history):
                                                      % (setup["variant"] != "py", setup["variant"] == "c_compact", type(exc).__name__, str(exc)[:160])}, 0)
         lc = None
     bump("variant:" + setup["variant"])
+    magnitudes = True
     if lc is not None and setup["variant"] != "py" and (setup["window"] is not None or setup["penalty"] not in (None, 0.0, 1.0)):
-        # on these inputs the C matrix is known not to equal the recurrence (known findings): the history oracle, which
-        # judges cells by the recurrence, would only restate those findings
-        bump("c_variant_history_skipped:known_matrix_finding")
-        lc = None
+        # on these inputs the C matrix is known not to equal the recurrence (known findings): judging cells by the
+        # recurrence would only restate those findings.  The history oracles that do not need the magnitudes still apply:
+        # path shape, end cell, minlen, no reuse since the last reset, restart => as on a fresh object.
+        bump("c_variant_history_without_magnitudes:known_matrix_finding")
+        magnitudes = False
     U = set()
     streams = {}
     obs = []
@@ -381,8 +386,8 @@ def execute(history):
                     bump("op:next")
                     path = m.path
                     obs.append([opi, int(m.row), int(m.col), [list(map(int, t)) for t in path]])
-                    v = check_path(path, (int(m.row), int(m.col)), M, U, spec["minlen"], "match %d of a kbest_matches(k=%s, minlen=%s, buffer=%s, restart=%s) stream" %
-                                   (st["n"], spec["k"], spec["minlen"], spec["buffer"], spec["restart"]))
+                    v = check_path(path, (int(m.row), int(m.col)), M if magnitudes else None, U, spec["minlen"], "match %d of a kbest_matches(k=%s, minlen=%s, buffer=%s, restart=%s) stream" %
+                                   (st["n"], spec["k"], spec["minlen"], spec["buffer"], spec["restart"]), shape=(len(M) - 1, len(M[0]) - 1))
                     add(v, opi)
                     if spec["k"] is not None and st["n"] > spec["k"]:
                         add({"class": "stream-count", "detail": "more than k=%d matches" % spec["k"]}, opi)
@@ -406,8 +411,8 @@ def execute(history):
                         n += 1
                         path = m.path
                         obs.append([opi, int(m.row), int(m.col), [list(map(int, t)) for t in path]])
-                        add(check_path(path, (int(m.row), int(m.col)), M, U, op["minlen"], "match %d of kbest_matches_store(k=%s, buffer=%s, restart=%s, keep=%s)" %
-                                       (n, op["k"], op["buffer"], op["restart"], op["keep"])), opi)
+                        add(check_path(path, (int(m.row), int(m.col)), M if magnitudes else None, U, op["minlen"], "match %d of kbest_matches_store(k=%s, buffer=%s, restart=%s, keep=%s)" %
+                                       (n, op["k"], op["buffer"], op["restart"], op["keep"]), shape=(len(M) - 1, len(M[0]) - 1)), opi)
                         U.update((int(a), int(b)) for a, b in path)
                     if op["k"] is not None and n > op["k"]:
                         add({"class": "stream-count", "detail": "store returned %d > k=%d matches" % (n, op["k"])}, opi)
@@ -425,14 +430,14 @@ def execute(history):
                     for st2 in streams.values():
                         st2["pure"] = False
                 elif kind == "best_match":
-                    if lc._wp is None or setup["variant"] == "c_compact":
+                    if lc._wp is None or setup["variant"] == "c_compact" or not magnitudes:
                         continue
                     m = lc.best_match()
                     bump("op:best_match")
                     if int(m.row) > 0 and int(m.col) > 0 and M[int(m.row)][int(m.col)] > 0:
                         add(check_path(m.path, (int(m.row), int(m.col)), M, U, None, "best_match", check_disjoint=False), opi)
                 elif kind == "wp_slice":
-                    if lc._wp is None:
+                    if lc._wp is None or not magnitudes:
                         continue
                     sl = lc.wp_slice()
                     bump("op:wp_slice")
